@@ -308,6 +308,23 @@ func mkTriggerEvent(st *branchState, num, eon uint64, prefix common.Hash, sender
 	return encEventTriggerRegistered(triggerAddr, eon, prefix, sender, defBytes, exp), ev
 }
 
+// buildMultiSyncer wires the MultiEventSyncer with both processors the way
+// Keyper.initMultiEventSyncer does (one client per component).
+func buildMultiSyncer(m *machine, node *dbNode) (*svc.MultiEventSyncer, func()) {
+	c1, c2, c3 := m.chain.Client(), m.chain.Client(), m.chain.Client()
+	contract, err := triggerBindings.NewShuttereventtriggerregistryv1(triggerAddr, c1)
+	if err != nil {
+		panic(err)
+	}
+	procs := []svc.EventProcessor{svc.NewEventTriggerRegisteredEventProcessor(contract, node.Pool), svc.NewTriggerProcessor(c2, node.Pool)}
+	s, err := svc.NewMultiEventSyncer(node.Pool, c3, m.syncStart, procs)
+	if err != nil {
+		panic(err)
+	}
+	s.MaxRequestBlockRange = m.maxRange
+	return s, func() { c1.Close(); c2.Close(); c3.Close() }
+}
+
 type trigDef struct {
 	def   svc.EventTriggerDefinition
 	bytes []byte
@@ -329,18 +346,8 @@ var kindMulti = &kindSpec{
 		}
 	},
 	build: func(m *machine, node *dbNode) (syncFn, func()) {
-		c1, c2, c3 := m.chain.Client(), m.chain.Client(), m.chain.Client()
-		contract, err := triggerBindings.NewShuttereventtriggerregistryv1(triggerAddr, c1)
-		if err != nil {
-			panic(err)
-		}
-		procs := []svc.EventProcessor{svc.NewEventTriggerRegisteredEventProcessor(contract, node.Pool), svc.NewTriggerProcessor(c2, node.Pool)}
-		s, err := svc.NewMultiEventSyncer(node.Pool, c3, m.syncStart, procs)
-		if err != nil {
-			panic(err)
-		}
-		s.MaxRequestBlockRange = m.maxRange
-		return s.Sync, func() { c1.Close(); c2.Close(); c3.Close() }
+		s, cl := buildMultiSyncer(m, node)
+		return s.Sync, cl
 	},
 	genLog: func(g *genCtx) (fakechain.LogSpec, *refEvent) {
 		switch rapid.IntRange(0, 13).Draw(g.rt, g.l+"class") {
